@@ -22,7 +22,9 @@ type Case struct {
 
 var (
 	hosts = []string{"", "", "docker.io", "index.docker.io", "registry-1.docker.io", "localhost", "localhost:5000", "example.com", "example.com:443",
-		"reg.example.com.", "host.", "single", "Upper", "upPer-x", "a-B", "1.2.3.4", "1.2.3.4:80", "host:port", "ex_ample.com", "-bad.com", "bad-.com", "quay.io", "gcr.io:5000", "LOCALHOST", "x.Y", "a..b", "host:", "A", "aB", "a-", "localhost:"}
+		"reg.example.com.", "host.", "single", "Upper", "upPer-x", "a-B", "1.2.3.4", "1.2.3.4:80", "host:port", "ex_ample.com", "-bad.com", "bad-.com", "quay.io", "gcr.io:5000", "LOCALHOST", "x.Y", "a..b", "host:", "A", "aB", "a-", "localhost:",
+		// look-alikes of the Docker Hub names and of localhost: only the exact names are aliases
+		"mydocker.io", "lab-docker.io", "mirror.docker.io", "docker.io.example.com", "xdocker.io:5000", "index.docker.io.", "docker.io:443", "mylocalhost", "localhost.example.com"}
 	repoParts = []string{"alpine", "library", "a", "a.b", "a_b", "a__b", "a-b", "a---b", "a___b", "a..b", "a._b", "Upper", "has space", "0", "localhost", "x-", "-x", "", "ab12", "a_.b", "a-_b"}
 	tags      = []string{"", "", "latest", "v1", "1.0.0", "_x", ".hidden", "-rc1", "a.b-c_d", "bad!tag", "5000", "A", strings.Repeat("t", 128), strings.Repeat("t", 129), "a:b", "a/b", "."}
 	hex64     = "0123456789abcdef0123456789abcdef0123456789abcdef0123456789abcdef"
